@@ -29,13 +29,14 @@ type Ctx struct {
 	Toolchain string
 	Tier      string
 
-	cg        *callgraph.Graph
-	fnInfo    map[*ssa.Function]*fnInfo
-	callersOf map[*ssa.Function][]ssa.CallInstruction
-	allFuncs  map[*ssa.Function]bool
-	r         *roles
-	br        *batcherRoles
-	flows     map[*ssa.Function]*lockFlowResult
+	cg            *callgraph.Graph
+	fnInfo        map[*ssa.Function]*fnInfo
+	callersOf     map[*ssa.Function][]ssa.CallInstruction
+	allFuncs      map[*ssa.Function]bool
+	r             *roles
+	br            *batcherRoles
+	lockScopeSkip func(*ssa.Function) bool
+	flows         map[*ssa.Function]*lockFlowResult
 }
 
 const modulePath = "github.com/ozontech/file.d"
